@@ -61,6 +61,11 @@ def _models():
     m['ByteArray.hex'] = (ByteArray(encoding='hex'), 'hexBinary', 'bytes')
     m['ByteArray.urlsafe'] = (ByteArray(encoding='urlsafe_base64'), 'string', 'bytes')
     m['ByteArray.default'] = (ByteArray, 'base64Binary', 'bytes')
+    # the same types customized once more, the way a member declaration does it: ByteArray(encoding=...)(min_occurs=1)
+    m['ByteArray.hex.again'] = (ByteArray(encoding='hex')(min_occurs=1), 'hexBinary', 'bytes')
+    m['ByteArray.hex.customized'] = (ByteArray(encoding='hex').customize(nillable=False), 'hexBinary', 'bytes')
+    m['ByteArray.urlsafe.again'] = (ByteArray(encoding='urlsafe_base64')(min_occurs=1), 'string', 'bytes')
+    m['ByteArray.base64.again'] = (ByteArray(encoding='base64')(max_len=10 ** 6), 'base64Binary', 'bytes')
     m['Date.fmt'] = (P.Date(date_format='%d/%m/%Y'), None, 'date')
     return m
 
@@ -73,6 +78,7 @@ FAMILIES = {
     'datetime': ['DateTime'], 'datetime-cust': ['DateTime.as_tz', 'DateTime.as_utc', 'DateTime.naive'],
     'duration': ['Duration'],
     'bytes': ['ByteArray.base64', 'ByteArray.hex', 'ByteArray.urlsafe', 'ByteArray.default'],
+    'bytes-again': ['ByteArray.hex.again', 'ByteArray.hex.customized', 'ByteArray.urlsafe.again', 'ByteArray.base64.again'],
 }
 
 
@@ -441,7 +447,7 @@ def mech_of(what, name, kind, v, text, got, exc=None, pname=None):
         if kind in ('time', 'datetime') and what in ('parse_crash', 'parse_rejected') and '24:00:00' in (text or '') \
                 and type(exc).__name__ in ('ValueError', 'ValidationError'):
             return 'xsd_24_00_00_not_read'
-        if name == 'ByteArray.hex' and what in ('parse_crash', 'roundtrip_crash') and type(exc).__name__ == 'TypeError':
+        if name.startswith('ByteArray.hex') and what in ('parse_crash', 'roundtrip_crash') and type(exc).__name__ == 'TypeError':
             return 'hex_from_text_typeerror'
         if kind == 'datetime' and what in ('parse_wrong', 'roundtrip_changed') and isinstance(got, datetime.datetime) \
                 and got.tzinfo is not None and v.tzinfo is not None:
